@@ -1261,6 +1261,14 @@ class Executor:
     def ev_Compare(self, node):
         left = self.ev(node.left)
         result = None
+        if self.no_fork and len(node.ops) > 1:
+            # chained comparison inside a comprehension element (no forking there): the conjunction of the links (comparands are side-effect free values)
+            links = []
+            for op, rnode in zip(node.ops, node.comparators):
+                right = self.ev(rnode)
+                links.append(self.truth_term(self.compare(type(op).__name__, left, right, node.lineno)))
+                left = right
+            return SV(z3.And(*links), TBool)
         for op, rnode in zip(node.ops, node.comparators):
             right = self.ev(rnode)
             r = self.compare(type(op).__name__, left, right, node.lineno)
